@@ -22,4 +22,27 @@ PROPS = {
         assumptions=["z3 sound", "PyVC encoding (DESIGN 2.2)", "A-IO: time.time() is non-decreasing", "A-HASH not needed for (c),(d)"],
         not_decided="(a) pre-auth isolation and (b) password check are not decided by this check yet",
     ),
+    "C04": dict(
+        design_ref="DESIGN.md 7 C04",
+        technique="contract-based deductive verification (PyVC + z3) of the flag helpers and the flag/sequence name mapping, whole-view postconditions; bounded exhaustive oracle as cross-check",
+        category="other",
+        text="Mailbox._help_add_flag/_help_remove_flag/_help_replace_flags/msg_sequences are proved against exact whole-table postconditions over the symbolic sequences dict "
+             "(every other message and every other sequence unchanged; Seen/unseen kept complementary for the touched message; \\Recent preserved by FLAGS replacement), and "
+             "constants.flag_to_seq/seq_to_flag against the system-flag table. Two genuine defects (F05 keyword atoms aliasing system sequences, F06 case-sensitive system flags) are "
+             "recorded as known findings; the obligations are proved for every input outside those two characterised classes.",
+        note="Level is 'other' while known findings are open. Mailbox.store/fetch tail/append and notification delivery are not yet under contract (clauses d-g of DESIGN C04). Trusted: z3, PyVC encoding.",
+        assumptions=["z3 sound", "PyVC encoding (DESIGN 2.2): defaultdict(set) reads insert the default; set/dict iteration order arbitrary"],
+        not_decided="store()/fetch()/append() call sites and cross-session notification (clauses d-g) are not decided yet",
+    ),
+    "C10": dict(
+        design_ref="DESIGN.md 7 C10",
+        technique="contract-based deductive verification (PyVC + z3) of the admission relation Mailbox.would_conflict and intersect, loop invariants over the executing-task list; bounded exhaustive oracle",
+        category="other",
+        text="Mailbox.would_conflict is proved, for every command kind, peek bit, message sets and any list of executing commands, to admit a command only if it does not have to be serialised "
+             "against an executing one (structure writers run alone; flag writers never overlap a SEARCH), to admit everything when nothing executes, and never to refuse status-only commands "
+             "unless a structure writer executes. This is clause (a) of the property; interleaving-level clauses are not decided here.",
+        note="Partial: clauses (b)-(e) (stale resolution, lock order, wake-ups, linearizability of whole responses) are not yet under contract; a change that breaks them is not detected by this check. Trusted: z3, PyVC encoding, IMAPClientCommand.qstr.",
+        assumptions=["z3 sound", "PyVC encoding (DESIGN 2.2)", "STORE and the FETCH tail update flags in one atomic asyncio segment (no await inside the update loops)"],
+        not_decided="(b) stale resolution, (c) COPY/MOVE steps, (d) deadlock freedom, (e) linearizability",
+    ),
 }
